@@ -866,6 +866,10 @@ bool HttpMessage::putFile(const String& path, int begin, int end)
 		setHeader("Content-Type", "multipart/form-data; boundary=" + boundary);
 
 		write(head);
+
+		// the boundary went out with the headers; the message keeps the type its owner set, so that it is framed
+		// again when it is sent again (a 307/308 redirection, a request object used twice)
+		setHeader("Content-Type", "multipart/form-data");
 	}
 	writeFile(path, begin, end);
 	
